@@ -128,8 +128,12 @@ def make_leaf(vals, lspec, leafkind):
   return arr
 
 
-def make_tree(spec, leaf_vals, leafkind):
+def make_tree(spec, leaf_vals, leafkind, int_leaves=()):
+  """int_leaves: indices of f32 leaves that THIS client holds as int32 arrays
+  (clients of one aggregation may hold the same parameter in different dtypes,
+  e.g. integer counts next to float averages; jax promotes the sum)."""
   ls = spec_leaves(spec)
+  ls = [dict(l, dtype='i32') if j in int_leaves else l for j, l in enumerate(ls)]
   arrays = [make_leaf(v, l, leafkind) for v, l in zip(leaf_vals, ls)]
   return build_tree(spec, iter(arrays))
 
@@ -352,7 +356,7 @@ def run_mean(case, api):
   spec = case['tree']
   n = len(case['clients'])
   w64 = [float(c['w']) for c in case['clients']]
-  trees = [make_tree(spec, c['leaves'], case['leafkind']) for c in case['clients']]
+  trees = [make_tree(spec, c['leaves'], case['leafkind'], c.get('int_leaves', ())) for c in case['clients']]
   weights = [make_weight(c['w'], case['wkind']) for c in case['clients']]
   cids = make_cids(n, case.get('cid_kind', 'bytes'))
   flats = [flat(t) for t in trees]
@@ -438,7 +442,7 @@ def check_sum_values(in_np, out_leaves):
 def run_sum(case):
   spec = case['tree']
   n = len(case['clients'])
-  trees = [make_tree(spec, c['leaves'], case['leafkind']) for c in case['clients']]
+  trees = [make_tree(spec, c['leaves'], case['leafkind'], c.get('int_leaves', ())) for c in case['clients']]
   flats = [flat(t) for t in trees]
   in_leaves = [f[0] for f in flats]
   treedef = flats[0][1]
@@ -688,6 +692,26 @@ MEAN_ELEMS = {'f32': f32_elements(64), 'f16': F16_ELEMENTS,
               'i32': i32_elements(100000)}
 
 
+
+def mixed_dtypes(draw, spec, clients):
+  """In 1 case of 4 (trees without f16): some, not all, clients hold some f32
+  leaves as int32 arrays with small integer values."""
+  ls = spec_leaves(spec)
+  f32 = [j for j, l in enumerate(ls) if l['dtype'] == 'f32']
+  if len(clients) < 2 or not f32 or any(l['dtype'] == 'f16' for l in ls):
+    return
+  if draw(st.integers(0, 3)) != 0:
+    return
+  who = draw(st.lists(st.integers(0, len(clients) - 1), min_size=1,
+                      max_size=len(clients) - 1, unique=True))
+  which = draw(st.lists(st.sampled_from(f32), min_size=1, max_size=len(f32), unique=True))
+  for ci in who:
+    clients[ci]['int_leaves'] = sorted(which)
+    for j in which:
+      size = len(clients[ci]['leaves'][j])
+      clients[ci]['leaves'][j] = draw(st.lists(st.integers(-1000, 1000), min_size=size, max_size=size))
+
+
 @st.composite
 def mean_case(draw, tier, api):
   spec = draw(tree_spec(tier))
@@ -707,6 +731,7 @@ def mean_case(draw, tier, api):
   }
   if api == 'aggregator':
     case['cid_kind'] = draw(st.sampled_from(['bytes', 'str', 'int']))
+  mixed_dtypes(draw, spec, case['clients'])
   return case
 
 
@@ -718,7 +743,7 @@ def sum_case(draw, tier):
   spec = draw(tree_spec(tier))
   n = draw_n(draw, tier)
   vals = draw_clients_values(draw, spec, n, SUM_ELEMS)
-  return {
+  case = {
       'tree': spec,
       'clients': [{'leaves': v} for v in vals],
       'leafkind': draw(st.sampled_from(['jax', 'jax', 'jax', 'numpy'])),
@@ -726,6 +751,8 @@ def sum_case(draw, tier):
                                      'oneshot'])),
       'perm': list(draw(st.permutations(list(range(n))))),
   }
+  mixed_dtypes(draw, spec, case['clients'])
+  return case
 
 
 RATIOS = [2.0 ** -10, 2.0 ** -4, 0.25, 0.5, 0.75, 1 - 2.0 ** -10, 1 - 2.0 ** -20,
@@ -795,6 +822,11 @@ def tree_labels(spec):
 
 
 def client_labels(case):
+  return _client_labels(case) + (['mixed_leaf_dtypes_across_clients']
+                                 if any(c.get('int_leaves') for c in case['clients']) else [])
+
+
+def _client_labels(case):
   n = len(case['clients'])
   out = ['n=%d' % n if n < 3 else 'n>=3', 'input:' + case['input'],
          'leafkind:' + case['leafkind']]
